@@ -114,7 +114,8 @@ SubSeqFrom(xs, i, ys, j) ==
 IsSubSeq(xs, ys) == SubSeqFrom(xs, 1, ys, 1)
 
 \* runs are canonical (maximal), so equal word sequences have equal run sequences
-C09_TextEqualsHtml(s, o)   == o.txt = o.vis
+\* ... and the words end in the same places: txtj / visj list the source words after which a word goes on without a blank
+C09_TextEqualsHtml(s, o)   == o.txt = o.vis /\ o.txtj = o.visj
 C09_ImagesFromHtml(s, o)   == IsSubSeq(o.ci, o.domimg)
 C09_WordCount(s, o)        == (o.onlytxt /\ o.ntitle = 0) => o.wc = o.txtwc
 
